@@ -101,6 +101,12 @@ def run(ctx):
         nontrivial = sum(1 for e in t["ev"] if e["ev"] == "save") >= 2
         ctx.note_case((kind, rf.describe_script(p) if kind == "script" else str(sorted(p.items()))), nontrivial)
     accepted, norm = rf.validate(ctx, jobs, traces, rf.MECH, rf.INV_C05, runsim.normalise_for_tlc, "C05")
+    # the natural runs must contain steps that were refused and retried with a smaller step (there the step that is
+    # reported and the step the state was advanced with can differ) — verdicts first, then the guard
+    refused = sum(t.get("info", {}).get("refused_evaluations", 0) for (kind, _), t in zip(jobs, traces) if kind == "natural")
+    ctx.cov["refused_evaluations_in_natural_runs"] = refused
+    if refused < 3 and not ctx.violations:
+        raise core.MachineryFailure(f"C05: natural runs contain only {refused} refused evaluations (retried steps are not exercised)")
     for n in sorted(accepted)[:3]:
         ctx.sample({"input": jobs[n][1], "trace_events": [e["ev"] for e in norm[n]["ev"]],
                     "frames": norm[n]["ev"][-2].get("frames") if len(norm[n]["ev"]) > 1 else None})
